@@ -157,7 +157,7 @@ def run(ck):
             ck.count()
             evs.append(ev)
         # whole script (declarations + assert), every 3rd formula
-        if eid % 3 == 0 and not has_pow(fj) and f.get_type().is_bool_type():
+        if (idx >= len(base) or ck.rng.random() < 0.34) and not has_pow(fj) and f.get_type().is_bool_type():
             for dag in (True, False):
                 ev = {"id": eid, "kind": "print_script", "f": fj, "dag": dag, "res": "error", "sxs": [], "exc": ""}
                 eid += 1
